@@ -53,7 +53,7 @@ def plan(tier, prop):
                             "fatal_error", "dup_reply_ignored",
                             "late_reply_in_later_burst",
                             "retryable_discarded", "window_full",
-                            "seq_wrap", "falsy_callable_callback", "full_size_reply"] + ([] if quick else
+                            "seq_wrap", "falsy_callable_callback", "full_size_reply", "seq_time_warp_done"] + ([] if quick else
                                            ["seq_skip_outstanding"]),
         "knob_ranges": {"n_tries": "1-5", "timeout": TIMEOUTS,
                         "window": "1-16", "buffer_size": BUFFERS,
@@ -293,6 +293,18 @@ class Engine(object):
                 w.violate("X1", "callback of command %d invoked with a "
                           "datagram the peer never generated for it" % c.id,
                           kind="forged-reply")
+            wp = self.warp
+            if wp and c not in wp and all(
+                    v.seq is not None and not v.ok_returned for v in wp) \
+                    and wp[1].seq == (wp[0].seq + 1) & 0xffff:
+                # both victims unanswered: advance the counter to just
+                # before the first victim's number
+                self.warp = None
+                goal = (wp[0].seq - 2) & 0xffff
+                for _ in range(70000):
+                    if next(self.conn.seq) == goal:
+                        break
+                w.probe("seq_time_warp_done")
         kind = self.tape.weighted([8, 1, 1])
         if kind == 1:
             # a callable object that is an (empty) collection: falsy
@@ -351,6 +363,27 @@ class Engine(object):
             for c in cmds:
                 if self.tape.chance(0.02):
                     self.blackhole[c.id] = 1 + self.tape.draw(self.n_tries)
+        # "time warp" of the 16-bit sequence counter: two neighbouring
+        # commands stay unanswered for a while (their first copies are lost)
+        # and meanwhile the counter is advanced - as 65 thousand answered
+        # commands would - to just before their numbers, so that the numbers
+        # the next commands would get are both still in use.  Only without
+        # late copies of datagrams (a late reply to a number used 65536
+        # commands ago cannot exist in reality).
+        self.warp = None
+        pol = self.policy
+        # (any other fault could leave a datagram of before the warp in
+        # flight: only otherwise fault-free runs are warped)
+        late = pol.active and (pol.any_net() or any(
+            pol.rates.get(k, 0) > 0 for k in pol.rates))
+        if not heal and not simple and not single and n >= 8 and \
+                window >= 3 and self.n_tries >= 2 and not late and \
+                self.tape.draw(3) == 0:
+            for c in cmds[:2]:
+                self.blackhole[c.id] = 1 + self.tape.draw(self.n_tries - 1)
+            self.warp = cmds[:2]
+            w.probe("seq_time_warp")
+        warped = self.warp is not None
         self.cur = cmds
         self.outstanding = {}     # seq -> command sent and not yet answered
         self.cur_window = 1 if single else window
@@ -513,7 +546,8 @@ class Engine(object):
                 self.policy.rate(k) for k in
                 ("retryable_rc", "fatal_rc", "host_stall", "clock_jump_fwd",
                  "clock_jump_back")) and (heal or self.clean) and \
-                getattr(self, "long_victim", None) is None:
+                getattr(self, "long_victim", None) is None and \
+                not warped:
             if outcome != "returned":
                 w.violate("L", "no fault is active but the call raised %s"
                           % outcome, kind="healed-failure")
